@@ -125,6 +125,19 @@ def o_mapping(inp):
                 if k in model:
                     return (("getitem-present-raised", f"step {step} {op!r} raised KeyError", repr(model[k].value)), True, sorted(cls))
                 cls.add("keyerror")
+        elif name in ("rename", "revalue"):
+            # the stored Field is edited through its public setters: every view must follow ("always describe the same fields")
+            k = op[1]
+            if k not in model:
+                continue
+            fld = model[k]
+            if name == "revalue":
+                fld.value = op[2]
+            elif op[2] not in model and op[2] not in ("ENTRYTYPE", "ID"):
+                fld.key = op[2]
+                model = {(op[2] if kk == k else kk): vv for kk, vv in model.items()}
+                cls.add("field-renamed-in-place")
+            seen_fields[id(fld)] = (fld, (fld.key, repr(fld.value), fld.start_line))
         elif name == "reserved":
             got = entry[op[1]]
             exp_ret = inp["type"] if op[1] == "ENTRYTYPE" else inp["key"]
@@ -306,6 +319,8 @@ def small_ops(keys):
         ops += [["set_field", k, "v"], ["setitem", k, "w"], ["pop", k], ["del", k], ["get", k], ["getitem", k], ["contains", k]]
     ops.append(["pop_default", keys[0], "dflt"])
     ops.append(["get_default", keys[1], 7])
+    ops.append(["rename", keys[0], "zz"])
+    ops.append(["rename", keys[1], keys[2]])
     ops.append(["reserved", "ENTRYTYPE"])
     ops.append(["reserved", "ID"])
     return ops
@@ -334,6 +349,8 @@ def strategies():
         st.tuples(st.just("contains"), key).map(list),
         st.tuples(st.just("getitem"), key).map(list),
         st.tuples(st.just("reserved"), st.sampled_from(["ENTRYTYPE", "ID"])).map(list),
+        st.tuples(st.just("rename"), key, st.sampled_from(KEYS + ["renamed", "Renamed"])).map(list),
+        st.tuples(st.just("revalue"), key, val).map(list),
     )
     start = st.lists(st.tuples(key, val).map(list), max_size=5, unique_by=lambda kv: kv[0])
     mapping = st.fixed_dictionaries({"type": st.sampled_from(["article", "Book", ""]), "key": st.sampled_from(["K", "a", ""]), "fields": start, "ops": st.lists(op, min_size=1, max_size=30)})
@@ -459,5 +476,5 @@ def run(chk):
         "metadata item added/changed/removed, Explicit<->Implicit class swap; must be unequal, both directions). "
         "Non-trivial: a history that replaced an existing key and removed one; every equality case."
     )
-    chk.required_classes = ["replace-existing", "append-new", "remove-existing", "keyerror", "eq:Entry", "eq:Field", "eq:String", "eq:Preamble", "eq:ExplicitComment", "eq:ImplicitComment"]
+    chk.required_classes = ["replace-existing", "append-new", "remove-existing", "keyerror", "field-renamed-in-place", "eq:Entry", "eq:Field", "eq:String", "eq:Preamble", "eq:ExplicitComment", "eq:ImplicitComment"]
     chk.assumptions = ["`del entry[absent]` may raise KeyError or do nothing (its docstring calls it a shorthand for pop); the state must be unchanged either way"]
